@@ -11,8 +11,8 @@ impl PartialEqSpecImpl for SpacePoint {
     open spec fn obeys_eq_spec() -> bool { true }
     open spec fn eq_spec(&self, o: &SpacePoint) -> bool { sp_eq(*self, *o) }
 }
-pub open spec fn eq_is_identity(s: Seq<SpacePoint>) -> bool {
-    forall|i: int, j: int| 0 <= i < s.len() && 0 <= j < s.len() ==> (sp_eq(#[trigger] s[i], #[trigger] s[j]) <==> s[i] == s[j])
+pub open spec fn eq_is_identity(m: Multiset<SpacePoint>) -> bool {
+    forall|a: SpacePoint, b: SpacePoint| m.contains(a) && m.contains(b) ==> (#[trigger] sp_eq(a, b) <==> a == b)
 }
 
 // Euclidean distance of two space points (SpacePoint::distance: cos, sin, powi, sqrt over uom quantities), opaque
@@ -91,3 +91,92 @@ pub proof fn lemma_ms_empty()
         if ms(Seq::<SpacePoint>::empty()).count(v) > 0 { assert(Seq::<SpacePoint>::empty().contains(v)); }
     }
 }
+
+// ---- the Hough accumulator (IndexMap<(u32, u32), Vec<SpacePoint>> of votes, filled through float trigonometry): opaque.
+// Its abstract state is the multiset of points added and not yet removed; the three methods are assumed leaves (contracts in
+// cluster.vspec), cross-checked natively on the verbatim text (c15_acc).
+#[verifier::external_body]
+pub struct HoughSpaceAccumulator { _p: u8 }
+pub uninterp spec fn acc_view(a: &HoughSpaceAccumulator) -> Multiset<SpacePoint>;
+
+pub proof fn lemma_split_ms(s: Seq<SpacePoint>, i: int)
+    requires 0 <= i <= s.len()
+    ensures ms(s) == ms(s.subrange(0, i)).add(ms(s.subrange(i, s.len() as int)))
+{
+    lemma_multiset_commutative(s.subrange(0, i), s.subrange(i, s.len() as int));
+    assert(s =~= s.subrange(0, i) + s.subrange(i, s.len() as int));
+}
+pub proof fn lemma_prefix_step(s: Seq<SpacePoint>, i: int)
+    requires 0 <= i < s.len()
+    ensures ms(s.subrange(0, i + 1)) == ms(s.subrange(0, i)).insert(s[i])
+{
+    lemma_push_ms(s.subrange(0, i), s[i]);
+    assert(s.subrange(0, i + 1) =~= s.subrange(0, i).push(s[i]));
+}
+// removing the points of `b` one after the other from a view that contains all of them: the next one is still there
+pub proof fn lemma_next_present(v1: Multiset<SpacePoint>, cur: Multiset<SpacePoint>, b: Seq<SpacePoint>, i: int)
+    requires 0 <= i < b.len(), ms(b).subset_of(v1), cur.add(ms(b.subrange(0, i))) == v1
+    ensures cur.contains(b[i])
+{
+    broadcast use group_multiset_axioms, group_to_multiset_ensures;
+    lemma_split_ms(b, i);
+    let suf = b.subrange(i, b.len() as int);
+    assert(suf[0] == b[i]);
+    assert(suf.contains(b[i]));
+    assert(ms(suf).count(b[i]) >= 1);
+    assert(ms(b).count(b[i]) <= v1.count(b[i]));
+}
+
+// ---- the result: clusters are point lists wrapped in `Cluster`
+pub open spec fn ms_cls(cs: Seq<Cluster>) -> Multiset<SpacePoint>
+    decreases cs.len()
+{
+    if cs.len() == 0 { Multiset::empty() } else { ms_cls(cs.drop_last()).add(ms(cs.last().0@)) }
+}
+pub proof fn lemma_ms_cls_push(cs: Seq<Cluster>, c: Cluster)
+    ensures ms_cls(cs.push(c)) == ms_cls(cs).add(ms(c.0@))
+{
+    assert(cs.push(c).drop_last() == cs);
+}
+pub proof fn lemma_ms_cls_prefix(cs: Seq<Cluster>, o: int)
+    requires 0 <= o < cs.len()
+    ensures ms_cls(cs.subrange(0, o + 1)) == ms_cls(cs.subrange(0, o)).add(ms(cs[o].0@))
+{
+    lemma_ms_cls_push(cs.subrange(0, o), cs[o]);
+    assert(cs.subrange(0, o + 1) =~= cs.subrange(0, o).push(cs[o]));
+}
+// points already taken out of `sp` while walking the clusters: all of clusters[0..o] and the first i points of clusters[o]
+pub open spec fn walked(cs: Seq<Cluster>, o: int, i: int) -> Multiset<SpacePoint> {
+    ms_cls(cs.subrange(0, o)).add(if o < cs.len() { ms(cs[o].0@.subrange(0, i)) } else { Multiset::empty() })
+}
+// while walking, the next point is still in what is left of sp
+pub proof fn lemma_walk_present(sp0: Multiset<SpacePoint>, cur: Multiset<SpacePoint>, cs: Seq<Cluster>, o: int, i: int)
+    requires 0 <= o < cs.len(), 0 <= i < cs[o].0@.len(), ms_cls(cs).subset_of(sp0), cur.add(walked(cs, o, i)) == sp0
+    ensures cur.contains(cs[o].0@[i])
+{
+    broadcast use group_multiset_axioms, group_to_multiset_ensures;
+    let p = cs[o].0@[i];
+    // ms_cls(cs) >= ms_cls(cs[0..o]) + ms(cs[o])
+    lemma_ms_cls_split(cs, o);
+    lemma_split_ms(cs[o].0@, i);
+    let suf = cs[o].0@.subrange(i, cs[o].0@.len() as int);
+    assert(suf[0] == p);
+    assert(suf.contains(p));
+    assert(ms(suf).count(p) >= 1);
+    assert(ms_cls(cs).count(p) <= sp0.count(p));
+}
+pub proof fn lemma_ms_cls_split(cs: Seq<Cluster>, o: int)
+    requires 0 <= o < cs.len()
+    ensures ms_cls(cs.subrange(0, o)).add(ms(cs[o].0@)).subset_of(ms_cls(cs))
+    decreases cs.len()
+{
+    broadcast use group_multiset_axioms;
+    if o == cs.len() - 1 {
+        assert(cs.subrange(0, o) =~= cs.drop_last());
+    } else {
+        lemma_ms_cls_split(cs.drop_last(), o);
+        assert(cs.drop_last().subrange(0, o) =~= cs.subrange(0, o));
+    }
+}
+pub open spec fn cls_min(cs: Seq<Cluster>, n: usize) -> bool { forall|i: int| 0 <= i < cs.len() ==> (#[trigger] cs[i]).0@.len() >= n }
+pub open spec fn cls_linked(cs: Seq<Cluster>, d: Length) -> bool { forall|i: int| 0 <= i < cs.len() ==> linked((#[trigger] cs[i]).0@, d) }
